@@ -10,6 +10,90 @@ struct V {
     file: String,
     func: String,
     sites: Vec<String>,
+    /// private functions whose whole body is `<hasher param>.hash_one(<string param>)`:
+    /// (name, index of the string parameter).  A call of one is a `hash_one` call.
+    helpers: Vec<(String, usize)>,
+}
+
+/// `fn name(.., h: .., .., s: ..) -> u64 { h.hash_one(s) }`  ->  (name, position of `s`)
+fn hash_helper(sig: &syn::Signature, block: &syn::Block) -> Option<(String, usize)> {
+    if block.stmts.len() != 1 {
+        return None;
+    }
+    let syn::Stmt::Expr(syn::Expr::MethodCall(m), None) = &block.stmts[0] else { return None };
+    if m.method != "hash_one" || m.args.len() != 1 || !is_plain_ident(&m.args[0]) || !is_plain_ident(&m.receiver) {
+        return None;
+    }
+    let arg = toks(&m.args[0]).trim_start_matches('&').trim().to_string();
+    let mut pos = None;
+    let mut n = 0;
+    for inp in &sig.inputs {
+        if let syn::FnArg::Typed(t) = inp {
+            if let syn::Pat::Ident(pi) = &*t.pat {
+                if pi.ident == arg {
+                    pos = Some(n);
+                }
+            }
+            n += 1;
+        }
+    }
+    pos.map(|p| (sig.ident.to_string(), p))
+}
+
+/// Is `e` a hash of one whole string: `<x>.hash_one(<ident>)` or `<helper>(.., <ident>, ..)`?
+fn whole_string_hash<'a>(e: &'a syn::Expr, helpers: &[(String, usize)]) -> Option<&'a syn::Expr> {
+    match e {
+        syn::Expr::Paren(p) => whole_string_hash(&p.expr, helpers),
+        syn::Expr::MethodCall(m) if m.method == "hash_one" && m.args.len() == 1 && is_plain_ident(&m.args[0]) => Some(&m.args[0]),
+        syn::Expr::Call(c) => {
+            let f = toks(&*c.func);
+            let f = f.rsplit("::").next().unwrap_or("").trim().to_string();
+            for (name, pos) in helpers {
+                if *name == f {
+                    if let Some(a) = c.args.iter().nth(*pos) {
+                        if is_plain_ident(a) {
+                            return Some(a);
+                        }
+                    }
+                }
+            }
+            None
+        }
+        _ => None,
+    }
+}
+
+/// The value a closure returns (tail expression of its body).
+fn closure_result(c: &syn::ExprClosure) -> Option<&syn::Expr> {
+    match &*c.body {
+        syn::Expr::Block(b) => match b.block.stmts.last() {
+            Some(syn::Stmt::Expr(e, None)) => Some(e),
+            _ => None,
+        },
+        e => Some(e),
+    }
+}
+
+/// Names bound inside a closure: its parameters and the `let`s of its body.
+fn closure_bound(c: &syn::ExprClosure) -> Vec<String> {
+    struct B(Vec<String>);
+    impl<'ast> Visit<'ast> for B {
+        fn visit_pat_ident(&mut self, p: &'ast syn::PatIdent) {
+            self.0.push(p.ident.to_string());
+        }
+    }
+    let mut b = B(Vec::new());
+    for p in &c.inputs {
+        b.visit_pat(p);
+    }
+    if let syn::Expr::Block(bl) = &*c.body {
+        for st in &bl.block.stmts {
+            if let syn::Stmt::Local(l) = st {
+                b.visit_pat(&l.pat);
+            }
+        }
+    }
+    b.0
 }
 
 fn is_plain_ident(e: &syn::Expr) -> bool {
@@ -48,10 +132,7 @@ impl<'ast> Visit<'ast> for V {
         if let syn::Pat::Ident(pi) = &l.pat {
             if pi.ident == "hash" {
                 if let Some(init) = &l.init {
-                    let shape = match &*init.expr {
-                        syn::Expr::MethodCall(m) if m.method == "hash_one" && m.args.len() == 1 && is_plain_ident(&m.args[0]) => ".hashOneWhole",
-                        _ => ".other",
-                    };
+                    let shape = if whole_string_hash(&init.expr, &self.helpers).is_some() { ".hashOneWhole" } else { ".other" };
                     let t = toks(&*init.expr);
                     self.push(".binding", shape, &t);
                 }
@@ -59,11 +140,38 @@ impl<'ast> Visit<'ast> for V {
         }
         syn::visit::visit_local(self, l);
     }
+    fn visit_expr_call(&mut self, c: &'ast syn::ExprCall) {
+        let f = toks(&*c.func);
+        let f = f.rsplit("::").next().unwrap_or("").trim().to_string();
+        if self.helpers.iter().any(|(n, _)| *n == f) {
+            let e = syn::Expr::Call(c.clone());
+            let shape = if whole_string_hash(&e, &self.helpers).is_some() { ".hashOneWhole" } else { ".other" };
+            self.push(".call", shape, &toks(c));
+        }
+        syn::visit::visit_expr_call(self, c);
+    }
     fn visit_expr_method_call(&mut self, m: &'ast syn::ExprMethodCall) {
         let name = m.method.to_string();
-        if name == "hash_one" {
+        if name == "hash_one" && self.helpers.iter().any(|(n, _)| *n == self.func) {
+            // the body of a recognised helper: accounted for at its call sites
+        } else if name == "hash_one" {
             let shape = if m.args.len() == 1 && is_plain_ident(&m.args[0]) { ".hashOneWhole" } else { ".other" };
             self.push(".call", shape, &toks(m));
+        } else if matches!(name.as_str(), "insert_with_hasher" | "find_or_find_insert_slot" | "shrink_to" | "shrink_to_fit") {
+            // the closure the table calls to re-hash an entry when it grows or shrinks: it has to hash the
+            // whole string of the entry it is given (a string it binds itself, not a captured value)
+            let ok = match m.args.last() {
+                Some(syn::Expr::Closure(c)) => match closure_result(c).and_then(|r| whole_string_hash(r, &self.helpers)) {
+                    Some(arg) => {
+                        let a = toks(arg).trim_start_matches('&').trim().to_string();
+                        closure_bound(c).contains(&a)
+                    }
+                    None => false,
+                },
+                _ => false,
+            };
+            let t = m.args.last().map(|a| toks(a)).unwrap_or_default();
+            self.push(".rehash", if ok { ".hashOneWhole" } else { ".other" }, &t);
         } else if name == "from_hash" || name == "from_key_hashed_nocheck" {
             // the hash handed to the raw-entry API must be the binding `hash`
             let ok = m.args.first().map(|a| toks(a) == "hash").unwrap_or(false);
@@ -77,8 +185,40 @@ impl<'ast> Visit<'ast> for V {
     }
 }
 
+thread_local! {
+    static HELPERS: std::cell::RefCell<Vec<String>> = std::cell::RefCell::new(Vec::new());
+}
+
+/// Is `name` one of the private `hasher.hash_one(string)` helpers found by `emit`?
+pub fn is_hash_helper(name: &str) -> bool {
+    let n = name.rsplit("::").next().unwrap_or("").to_string();
+    HELPERS.with(|h| h.borrow().contains(&n))
+}
+
 pub fn emit(src: &Path, out: &mut String) {
-    let mut v = V { file: String::new(), func: String::new(), sites: Vec::new() };
+    let mut v = V { file: String::new(), func: String::new(), sites: Vec::new(), helpers: Vec::new() };
+    // first pass: private helpers that are nothing but `hasher.hash_one(string)`
+    for f in ["rodeo.rs", "reader.rs", "threaded_rodeo.rs", "util.rs"] {
+        let path = src.join(f);
+        if !path.exists() {
+            continue;
+        }
+        let file = parse_file(&path);
+        for item in &file.items {
+            match item {
+                syn::Item::Fn(func) => v.helpers.extend(hash_helper(&func.sig, &func.block)),
+                syn::Item::Impl(imp) => {
+                    for it in &imp.items {
+                        if let syn::ImplItem::Fn(func) = it {
+                            v.helpers.extend(hash_helper(&func.sig, &func.block));
+                        }
+                    }
+                }
+                _ => {}
+            }
+        }
+    }
+    HELPERS.with(|h| *h.borrow_mut() = v.helpers.iter().map(|(n, _)| n.clone()).collect());
     for f in ["rodeo.rs", "reader.rs", "threaded_rodeo.rs"] {
         let path = src.join(f);
         if !path.exists() {
